@@ -32,6 +32,26 @@ CLAIMED = {
             "Seeded search with cancellations/timeouts aimed at connection creation and hand-over windows plus connection deaths; after the fault phase a probe of `max` simultaneous callers must rendezvous inside Invoke within a simulated hour, otherwise capacity was lost; leaked connections are classified black-box (never used / idle after use).",
             "Trusted: as C27; the probe is black-box (no pool internals read).",
             "DESIGN.md §6 C28"),
+    "C16": ("stream", "exploration",
+            "deterministic simulation of codecs + transport connection/listener over a chunking byte-stream network with concurrent senders; sequence-equality oracle",
+            "Seeded search over codec x handshake/listener mode x obfuscation x read chunking x 1-3 concurrent senders x payload sizes clustered at the length-encoding boundaries; the receiver must get exactly the sent payloads (per-sender order, byte-exact, once), 4-byte frames must surface as *codec.ProtocolErr with that code, and the listener's detected codec must be the client's.",
+            "Trusted: instrumenter rewrite; simnet byte stream (FIFO, arbitrary segmentation); crypto.DefaultRand hooked to the tape.",
+            "DESIGN.md §6 C16"),
+    "C17": ("stream", "exploration",
+            "deterministic simulation with a hostile/corrupting peer (aimed length prefixes, bit flips, truncation, garbage) against every codec and the transport read path; no-panic and allocation-bound oracle",
+            "Seeded search over attack class x codec x read path (codec.Read, client connection, listener + accepted connection) x chunking; every read must return a frame or an error, a panic in gotd/td code is a violation, and the buffer handed to a read must never be grown beyond the 16 MiB frame limit (+25% allocator slack).",
+            "Trusted: panics are attributed to gotd/td when the panicking frame is a /repo file; the frame limit (16 MiB) is taken from the transport documentation.",
+            "DESIGN.md §6 C17"),
+    "C18": ("stream", "exploration",
+            "deterministic simulation of obfuscated2 client handshake vs. Accept over a chunking stream, entropy source biased towards reserved prefixes; metadata/stream equality and wire-monitor oracle",
+            "Seeded search over protocol tags, DC ids (negative, test offsets, full int16 range), secrets, read chunking, short entropy reads and entropy that spells the reserved first words; both sides must agree on tag and DC, both byte streams must read back unchanged, and the 64-byte header on the wire must avoid every reserved pattern.",
+            "Trusted: reserved-pattern list taken from the transport-obfuscation documentation; simrand/simnet.",
+            "DESIGN.md §6 C18"),
+    "C19": ("stream", "exploration",
+            "deterministic simulation of FakeTLS: independent proxy-side server-hello writer (honest / wrong secret / wrong random / flipped bits), two FakeTLS ends exchanging writes of boundary sizes under chunking, TLS record wire monitor",
+            "Seeded search over write sizes clustered at 16384, 65535, 65536, 131071 and larger, read chunking, and cheating proxies; the handshake must succeed iff the digest is HMAC(secret, client random || hello); bytes read must equal bytes written and every record on the wire must carry a 16-bit length equal to its payload.",
+            "Trusted: the harness's server-hello writer and record parser follow the MTProxy FakeTLS description / RFC 5246 record layout independently of the code under test.",
+            "DESIGN.md §6 C19"),
     "C31": ("fs", "fault_enumeration",
             "deterministic simulation of session.FileStorage over a simulated disk; complete enumeration of crash points (every syscall boundary x torn-write class x recovery model) per sampled save sequence",
             "For each sampled sequence of 1-3 saves (session contents and sizes from the seed) the check enumerates EVERY syscall boundary of the saves, six torn-write prefixes for write syscalls, a process-crash model and seven power-loss survival patterns (including 'rename survived, data did not'), restarts from what is durable and requires Loader.Load to return exactly the previous or the new session (any complete earlier session under power loss). Exhaustive over crash points of each sampled history; histories are sampled.",
